@@ -699,4 +699,97 @@ theorem nodup_covers {α : Type} [DecidableEq α] (l₁ l₂ : List α) (hnd : l
   have h3 : 0 < l₂.length := List.length_pos_of_mem hb
   omega
 
+/-! ## §5 the node set of `_make_mrs_isograph` -/
+
+theorem setEdge_keys {g g' : IsoGraph} {a : Node} {t : Option Node} {l : Label}
+    (h : setEdge g a t l = .ok g') : dkeys g' = dkeys g := by
+  unfold setEdge at h
+  cases hA : dlookup a g with
+  | none => simp [hA] at h
+  | some adjA =>
+    simp only [hA, Except.ok.injEq] at h
+    subst h
+    rw [dkeys_dset]
+    have : a ∈ dkeys g := (dlookup_isSome_iff a g).1 (by simp [hA])
+    simp [this]
+
+theorem foldlM_preserve {β σ : Type} (P : σ → Prop) (f : σ → β → Except Err σ)
+    (hf : ∀ s b s', P s → f s b = .ok s' → P s') :
+    ∀ (l : List β) (s s' : σ), P s → l.foldlM f s = .ok s' → P s' := by
+  intro l
+  induction l with
+  | nil =>
+    intro s s' hs h
+    simp only [List.foldlM_nil, pure, Except.pure, Except.ok.injEq] at h
+    subst h; exact hs
+  | cons b l ih =>
+    intro s s' hs h
+    rw [List.foldlM_cons] at h
+    cases hb : f s b with
+    | error e => simp [hb, bind, Except.bind] at h
+    | ok s1 =>
+      simp only [hb, bind, Except.bind] at h
+      exact ih s1 s' (hf s b s1 hs hb) h
+
+theorem addEP_keys {properties : Bool} {m : MRS} {g g' : IsoGraph} {p : Pred}
+    (h : addEP properties m g p = .ok g') : dkeys g' = dkeys g := by
+  unfold addEP at h
+  simp only [bind, Except.bind] at h
+  cases h1 : setEdge g (vstr p.2.label) (some (vstr p.1)) eqScope with
+  | error e => simp [h1] at h
+  | ok ga =>
+    simp only [h1] at h
+    cases h2 : setEdge ga (vstr p.1) none (epNodeLabel properties m p.2) with
+    | error e => simp [h2] at h
+    | ok gb =>
+      simp only [h2] at h
+      have := foldlM_preserve (fun x : IsoGraph => dkeys x = dkeys gb) _
+        (fun s b s' hs hb => by rw [setEdge_keys hb]; exact hs) _ gb g' rfl h
+      rw [this, setEdge_keys h2, setEdge_keys h1]
+
+theorem mkIsoGraph_keys {properties : Bool} {m : MRS} {g : IsoGraph}
+    (h : mkIsoGraph properties m = .ok g) : dkeys g = dkeys (initGraph m) := by
+  unfold mkIsoGraph at h
+  simp only [bind, Except.bind] at h
+  cases h1 : m.preds.foldlM (addEP properties m) (initGraph m) with
+  | error e => simp [h1] at h
+  | ok ga =>
+    simp only [h1] at h
+    have k1 := foldlM_preserve (fun x : IsoGraph => dkeys x = dkeys (initGraph m)) _
+      (fun s b s' hs hb => by rw [addEP_keys hb]; exact hs) _ _ ga rfl h1
+    cases h2 : m.hcons.foldlM (fun g h => setEdge g (vstr h.hi) (some (vstr h.lo)) h.rel.toList) ga with
+    | error e => simp [h2] at h
+    | ok gb =>
+      simp only [h2] at h
+      have k2 := foldlM_preserve (fun x : IsoGraph => dkeys x = dkeys (initGraph m)) _
+        (fun s b s' hs hb => by rw [setEdge_keys hb]; exact hs) _ _ gb k1 h2
+      exact foldlM_preserve (fun x : IsoGraph => dkeys x = dkeys (initGraph m)) _
+        (fun s b s' hs hb => by rw [setEdge_keys hb]; exact hs) _ _ g k2 h
+
+theorem dset_ne_nil {κ ν : Type} [DecidableEq κ] (k : κ) (v : ν) (d : List (κ × ν)) : dset k v d ≠ [] := by
+  cases d with
+  | nil => simp [dset]
+  | cons e d =>
+    obtain ⟨k', v'⟩ := e
+    by_cases h : k' = k <;> simp [dset, h]
+
+theorem foldl_dset_eq_nil {β : Type} (f : β → Node) (l : List β) (g : IsoGraph)
+    (h : l.foldl (fun g v => dset (f v) ([] : Adj) g) g = []) : l = [] ∧ g = [] := by
+  induction l generalizing g with
+  | nil => exact ⟨rfl, by simpa using h⟩
+  | cons b l ih =>
+    simp only [List.foldl_cons] at h
+    exact absurd (ih _ h).2 (dset_ne_nil _ _ _)
+
+theorem initGraph_eq_nil {m : MRS} (h : initGraph m = []) : filledVars m = [] ∧ m.ids = [] := by
+  unfold initGraph at h
+  obtain ⟨h1, h2⟩ := foldl_dset_eq_nil vstr m.ids _ h
+  obtain ⟨h3, _⟩ := foldl_dset_eq_nil vstr (filledVars m) _ h2
+  exact ⟨h3, h1⟩
+
+theorem dkeys_eq_nil {κ ν : Type} {d : List (κ × ν)} (h : dkeys d = []) : d = [] := by
+  cases d with
+  | nil => rfl
+  | cons e d => simp [dkeys] at h
+
 end Verif.C06
